@@ -342,10 +342,10 @@ class Model:
         if not calls:
             return []
         data = "\n".join(f"{n} {sx_dump(list(a))}" for n, a in calls) + "\n"
-        # 16 GB of address space at most: a model regenerated from a faulty variant can try to build absurd values
-        p = subprocess.run(['bash', '-c', f'ulimit -s unlimited 2>/dev/null; ulimit -v 16000000; exec {self.exe}'],
+        # 12 GB of address space at most: a model regenerated from a faulty variant can try to build absurd values
+        p = subprocess.run(['bash', '-c', f'ulimit -s unlimited 2>/dev/null; ulimit -v 12000000; exec {self.exe}'],
                            input=data, stdout=subprocess.PIPE, stderr=subprocess.PIPE,
-                           text=True, timeout=1800)
+                           text=True, timeout=900 if os.environ.get('VERIF_TIER', 'quick') != 'thorough' else 3600)
         if p.returncode != 0:
             raise RuntimeError(f"model driver failed: {p.stderr[-500:]}")
         lines = p.stdout.split('\n')
